@@ -168,6 +168,8 @@ type State struct {
 	AccessLog *AccessLog
 	Tree      map[int]bool // objects reachable from the parsed function (C05 frame)
 	treeSnap  map[int]string
+	globSnap  map[int]string
+	poisonHits []string
 	violExtra []*Term
 	outVals   []outVal
 	reApps    []reApp
